@@ -27,6 +27,13 @@ def run(prop, tier, replay):
         binp = vlib.go_build(sc, "./cmd/reqscen", "reqscen", overlay=ov)
         if replay:
             rf = json.load(open(replay))
+            if rf.get("kind") == "crowd":
+                for _ in range(3):
+                    pr = vlib.run([binp, "-crowd", str(rf["rounds"]), "-crowd-k", "16"], ok_codes=(0, 1), timeout=1200)
+                    if pr.returncode == 1:
+                        break
+                print(pr.stdout.strip()[:1000])
+                return pr.returncode
             if rf.get("kind") == "stress":
                 pr = vlib.run([binp, "-stress", str(rf["n"]), "-seed", str(rf["seed"])], ok_codes=(0, 1), timeout=600)
                 print(pr.stdout.strip()[:1000])
@@ -71,7 +78,7 @@ def run(prop, tier, replay):
                 tmp = sc.path("rf.ndjson")
                 open(tmp, "w").write(json.dumps(f["case"]) + "\n")
                 ok = False
-                for _ in range(4):
+                for _ in range(10):
                     p2 = vlib.run([binp, "-cases", tmp, "-workers", "1"], ok_codes=(0, 1))
                     if p2.returncode == 1:
                         ok = True
@@ -97,6 +104,21 @@ def run(prop, tier, replay):
                     v.violation(rf, rep["what"] + " [deadline-race stress]")
                     break
             cov["deadline_race_requests"] = tot
+        if not v.violations:
+            # concurrent requesters (free-running; judged by the clauses every history of ReqResp.tla satisfies)
+            rounds = 1500 if tier == "quick" else 20000
+            pr = vlib.run([binp, "-crowd", str(rounds), "-crowd-k", "16"], ok_codes=(0, 1), timeout=1200)
+            rep = json.loads(pr.stdout)
+            cov["concurrent_requests"] = rep["requests"]
+            if rep["what"]:
+                rf = {"kind": "crowd", "rounds": rounds, "what": rep["what"]}
+                again = [json.loads(vlib.run([binp, "-crowd", str(rounds), "-crowd-k", "16"], ok_codes=(0, 1), timeout=1200).stdout)["what"] for _ in range(3)]
+                if any(again):
+                    v.violation(rf, rep["what"] + " [concurrent requesters]")
+                else:
+                    # response ids are random 31-bit numbers: a collision between two outstanding requests is possible
+                    # (about 1e-4 per run of this size) and outside the property; a failure that never shows again is noted
+                    cov["concurrent_requests_unreproduced"] = rep["what"]
         reg = {}
         for name, kw, want in (("FixedPid", dict(fixed=True), {"C11_Correlated", "C11_Unregistered", "C11_LateIsDead"}),
                                ("UnregOnTimeoutOnly", dict(unreg=True), {"C11_Unregistered"})):
